@@ -8,6 +8,8 @@ from check import run_model_driver
 
 GEN = ['numeric']
 LEAN_MODULES = ['XfabVerif.Proofs.C11', 'XfabVerif.Proofs.C11Real']
+# definitions the hand-written model mirrors (see harness/pins.py): a source change breaks the tie
+PINS = ['xfab/detector.py:trans_orientation', 'xfab/detector.py:image_flipping']
 LEAN_DRIVER_MODULES = ['XfabVerif.Model.Flip', 'XfabVerif.Gen.FloatDispatch']
 RULE = ("all 81 matrices over {-1,0,1}^4 (8 accepted, 73 rejected, each by all four functions); raw images img[x,y] of every shape "
         "1..8 x 1..8 with distinct pixel values, EVERY pixel, plus seeded random non-square shapes up to 400 x 400 (corner + random pixels); "
